@@ -93,6 +93,8 @@ func run(family string, line []byte, rec *recorder, opt string) {
 		runTS(line, rec)
 	case "pes":
 		runPES(line, rec)
+	case "desc":
+		runDesc(line, rec)
 	case "demux", "pair", "merge", "skip", "rewind", "rfault", "reader", "robust":
 		var sc streamScenario
 		if err := json.Unmarshal(line, &sc); err != nil {
